@@ -33,6 +33,12 @@ func (a aval) shape() string {
 	switch a.kind {
 	case "term":
 		return fmt.Sprintf("t%d", a.w)
+	case "local":
+		var ss []string
+		for _, s := range a.sub {
+			ss = append(ss, s.shape())
+		}
+		return fmt.Sprintf("local#%d{%s}", a.id, strings.Join(ss, ","))
 	case "ptr", "chan":
 		return fmt.Sprintf("%s#%d", a.kind, a.id)
 	case "func":
@@ -112,6 +118,11 @@ type bmcCtx struct {
 	ptrDom  map[int]map[int]bool
 	domGrew bool
 	rounds  int
+	// thread-local objects reachable from live registers (per bmcFinish / per resume)
+	localObjs  []Loc
+	localTerms []*T
+	localMade  map[int]Loc
+	noResolve  bool
 }
 
 const ptrW = 16
@@ -215,6 +226,9 @@ func locID(l Loc) int {
 func (x *X) absValue(v Value) aval {
 	switch v := v.(type) {
 	case *T:
+		if x.bmc != nil {
+			x.bmc.localTerms = append(x.bmc.localTerms, v) // terms in traversal order (same order as concValue)
+		}
 		return aval{kind: "term", w: v.W}
 	case Pointer:
 		if v.IsNil() {
@@ -228,7 +242,7 @@ func (x *X) absValue(v Value) aval {
 			x.unsupported("interleaving mode: pointer to an unregistered location")
 		}
 		if x.bmc != nil && x.bmc.nsetup > 0 && id > x.bmc.nsetup {
-			x.unsupported("interleaving mode: pointer to thread-local memory live across a visible operation")
+			return x.absLocal(v.L)
 		}
 		return aval{kind: "ptr", id: id}
 	case ChanRef:
@@ -267,6 +281,40 @@ func (x *X) absValue(v Value) aval {
 	return aval{}
 }
 
+// absLocal abstracts a thread-local object (allocated by the thread, reachable from a live
+// register): its contents become part of the location's register state.
+func (x *X) absLocal(l Loc) aval {
+	b := x.bmc
+	for k, o := range b.localObjs {
+		if o == l {
+			return aval{kind: "local", id: k}
+		}
+	}
+	k := len(b.localObjs)
+	b.localObjs = append(b.localObjs, l)
+	a := aval{kind: "local", id: k}
+	switch l := l.(type) {
+	case *ScalarLoc:
+		a.typ = l.T
+		if _, sym := l.V.(SymPtr); sym {
+			x.unsupported("interleaving mode: symbolic pointer in thread-local memory")
+		}
+		a.sub = []aval{x.absValue(l.V)}
+	case *StructLoc:
+		a.typ = l.T
+		for _, f := range l.F {
+			sc, ok := f.(*ScalarLoc)
+			if !ok {
+				x.unsupported("interleaving mode: nested thread-local aggregate live across a visible operation")
+			}
+			a.sub = append(a.sub, x.absValue(sc.V))
+		}
+	default:
+		x.unsupported("interleaving mode: thread-local array live across a visible operation")
+	}
+	return a
+}
+
 func collectTerms(v Value, out *[]*T) {
 	switch v := v.(type) {
 	case *T:
@@ -294,6 +342,31 @@ func (x *X) concValue(a aval, next func(w int) *T) Value {
 		return next(a.w)
 	case "nilptr":
 		return Pointer{}
+	case "local":
+		b := x.bmc
+		if l, ok := b.localMade[a.id]; ok {
+			return Pointer{L: l}
+		}
+		if a.typ == nil {
+			x.unsupported("interleaving mode: back reference to an unknown thread-local object")
+		}
+		if st, ok := a.typ.Underlying().(*types.Struct); ok && len(a.sub) == st.NumFields() {
+			sl := &StructLoc{T: a.typ}
+			x.regLoc(sl, &sl.ID)
+			b.localMade[a.id] = sl
+			for i, sa := range a.sub {
+				sc := &ScalarLoc{T: st.Field(i).Type()}
+				x.regLoc(sc, &sc.ID)
+				sc.V = x.concValue(sa, next)
+				sl.F = append(sl.F, sc)
+			}
+			return Pointer{L: sl}
+		}
+		sc := &ScalarLoc{T: a.typ}
+		x.regLoc(sc, &sc.ID)
+		b.localMade[a.id] = sc
+		sc.V = x.concValue(a.sub[0], next)
+		return Pointer{L: sc}
 	case "ptr":
 		if a.id-1 >= len(x.locByID) {
 			x.unsupported("interleaving mode: location id out of range on resume")
@@ -485,6 +558,7 @@ func (x *X) bmcFinish(op string, final bool) {
 	var frames []bmcFrame
 	var terms []*T
 	var names []string
+	b.localObjs = nil
 	if !final {
 		for d, fr := range x.stack[b.baseDepth:] {
 			bf := bmcFrame{fn: fr.fn, blk: fr.blk.Index, idx: fr.idx}
@@ -498,9 +572,10 @@ func (x *X) bmcFinish(op string, final bool) {
 					continue
 				}
 				bf.vals = append(bf.vals, v)
+				b.localTerms = nil
 				bf.avals = append(bf.avals, x.absValue(fr.env[v]))
 				n0 := len(terms)
-				collectTerms(fr.env[v], &terms)
+				terms = append(terms, b.localTerms...) // the value's terms and those of thread-local objects first reached through it
 				for i := n0; i < len(terms); i++ {
 					names = append(names, regName(d, v, i-n0))
 				}
@@ -744,6 +819,7 @@ func (x *X) bmcExploreFrom(setup *ssa.Function, l *bmcLoc) {
 	}
 	b.firstDone = false
 	// rebuild the frames
+	b.localMade = map[int]Loc{}
 	frs := make([]*frame, len(l.frames))
 	for i, bf := range l.frames {
 		fr := &frame{fn: bf.fn, env: map[ssa.Value]Value{}, visits: map[int]int{}, blk: bf.fn.Blocks[bf.blk], idx: bf.idx}
@@ -1024,6 +1100,8 @@ func (x *X) bmcPredicate(setup, pred *ssa.Function) *T {
 			c.Buf = nil
 			c.Count = x.B.Var(fmt.Sprintf("ch%d", i+1), 8)
 		}
+		b.noResolve = true
+		defer func() { b.noResolve = false }()
 		res = x.call(pred, []Value{shared}, nil).(*T)
 	})
 	if kind != "return" || len(x.trace) != 0 {
